@@ -403,7 +403,7 @@ func (c *client) sendErrorToAllAndStopReading(err error) {
 func (c *client) handleWorkDoneMessage(runtimeMessage DecodedRuntimeMessage) {
 	var doneMessage WorkDoneMessage
 	var result ExecutionResult
-	if err := cbor.Unmarshal(runtimeMessage.RawMessageData, &doneMessage); err != nil {
+	if err := c.decMode.Unmarshal(runtimeMessage.RawMessageData, &doneMessage); err != nil {
 		c.logger.Errorf("Failed to decode work done message (%v) for run ID '%s' ", err, runtimeMessage.RunID)
 		result = NewErrorExecutionResult(fmt.Errorf("failed to decode work done message (%w)", err))
 	} else {
@@ -416,7 +416,7 @@ func (c *client) handleWorkDoneMessage(runtimeMessage DecodedRuntimeMessage) {
 
 func (c *client) handleSignalMessage(runtimeMessage DecodedRuntimeMessage) {
 	var signalMessage SignalMessage
-	if err := cbor.Unmarshal(runtimeMessage.RawMessageData, &signalMessage); err != nil {
+	if err := c.decMode.Unmarshal(runtimeMessage.RawMessageData, &signalMessage); err != nil {
 		c.logger.Errorf("ATP client for run ID '%s' failed to decode signal message: %v",
 			runtimeMessage.RunID, err)
 		return
@@ -439,7 +439,7 @@ func (c *client) handleSignalMessage(runtimeMessage DecodedRuntimeMessage) {
 // Returns true if the error is fatal.
 func (c *client) handleErrorMessage(runtimeMessage DecodedRuntimeMessage) bool {
 	var errMessage ErrorMessage
-	if err := cbor.Unmarshal(runtimeMessage.RawMessageData, &errMessage); err != nil {
+	if err := c.decMode.Unmarshal(runtimeMessage.RawMessageData, &errMessage); err != nil {
 		c.logger.Errorf("Step with run ID '%s' failed to decode error message: %v",
 			runtimeMessage.RunID, err)
 	}
